@@ -1591,7 +1591,8 @@ lp_upolynomial_factors_t* upolynomial_factor_Z(const lp_upolynomial_t* f) {
   lp_upolynomial_t* f_pp = lp_upolynomial_primitive_part_Z(f);
 
   // Get a square-free decomposition of f
-  lp_upolynomial_factors_t* sq_free_factors = upolynomial_factor_square_free_primitive(f_pp);
+  // (lp_upolynomial_factor_square_free also splits off the power of x, which the primitive version requires)
+  lp_upolynomial_factors_t* sq_free_factors = lp_upolynomial_factor_square_free(f_pp);
   assert(integer_cmp_int(lp_Z, &sq_free_factors->constant, 1) == 0);
 
   // Factor individuals
